@@ -210,7 +210,7 @@ func (e *Engine) gotoBlock(st *State, b *ssa.BasicBlock) {
 	if e.liveBlocks != nil && st.dry == nil && len(st.frames) == 1 && fr.fn == e.curFn && !e.liveBlocks[b] {
 		// nothing the contract speaks about can happen on this path any more
 		// (vacuity canary, as at a return: the assumptions on this path must be consistent)
-		e.oblige(st, "canary", b.Instrs[0].Pos(), "", "false")
+		e.oblige(st, "canary", b.Instrs[0].Pos(), "cut", "false")
 		st.dead = true
 		st.cutEarly = true
 	}
